@@ -619,4 +619,81 @@ theorem softLOneV_le {δ x : ℝ} (hδ : 0 < δ) (hx : 0 ≤ x) : softLOneV δ x
     nlinarith [sq_nonneg (δ * δ * x)]
   linarith
 
+
+/-! ### pass 3: Tolerant as the code computes it (softplus with threshold 50) -/
+
+theorem softplus50_real (z : ℝ) : softplus50 z = if 50 < z then z else Real.log (1 + Real.exp z) := by
+  unfold softplus50; simp only [lt_real, log_real, exp_real, k_real, Nat.cast_ofNat, Nat.cast_one, decide_eq_true_eq]
+theorem softplus50D1_real (z : ℝ) : softplus50D1 z = if 50 < z then 1 else Real.exp z / (1 + Real.exp z) := by
+  unfold softplus50D1; simp only [lt_real, exp_real, k_real, Nat.cast_ofNat, Nat.cast_one, decide_eq_true_eq]
+theorem softplus50D2_real (z : ℝ) :
+    softplus50D2 z = if 50 < z then 0 else Real.exp z / ((1 + Real.exp z) * (1 + Real.exp z)) := by
+  unfold softplus50D2; simp only [lt_real, exp_real, k_real, Nat.cast_ofNat, Nat.cast_one, Nat.cast_zero, decide_eq_true_eq]
+
+/-- on the property's domain the argument of softplus never exceeds its threshold -/
+theorem tolerant_arg_le {a b x : ℝ} (hb : b < 0) (hx : 0 ≤ x) (hdom : a ≤ 50 * (-b)) : (x - a) / b ≤ 50 := by
+  rw [div_le_iff_of_neg hb]; nlinarith
+
+theorem tolerantC_eq {a b x : ℝ} (hb : b < 0) (hx : 0 ≤ x) (hdom : a ≤ 50 * (-b)) :
+    tolerantC a b x = tolerantV a b x ∧ tolerantCD1 a b x = tolerantD1 a b x ∧ tolerantCD2 a b x = tolerantD2 a b x := by
+  have hu := not_lt.mpr (tolerant_arg_le hb hx hdom)
+  refine ⟨?_, ?_, ?_⟩
+  · unfold tolerantC; rw [softplus50_real, if_neg hu, tolerantV_real]
+    simp only [log_real, exp_real, k_real, Nat.cast_one]
+  · unfold tolerantCD1; rw [softplus50D1_real, if_neg hu, tolerantD1_real]
+  · unfold tolerantCD2; rw [softplus50D2_real, if_neg hu, tolerantD2_real]
+    have : (1 + Real.exp ((x - a) / b)) ≠ 0 := by positivity
+    field_simp
+
+/-- beyond the threshold (only reachable for `a/|b| > 50`) the code's value differs from the documented one by at most
+`|b|·e⁻⁵⁰` -/
+theorem tolerantC_error {a b x : ℝ} (hb : b < 0) (hu : 50 < (x - a) / b) :
+    |tolerantC a b x - tolerantV a b x| ≤ -b * Real.exp (-50) := by
+  set u := (x - a) / b with hud
+  have e1 : tolerantC a b x - tolerantV a b x = -b * (Real.log (1 + Real.exp u) - u) := by
+    unfold tolerantC; rw [softplus50_real, if_pos hu, tolerantV_real]
+    simp only [log_real, exp_real, k_real, Nat.cast_one]; ring
+  have h2 : Real.log (1 + Real.exp u) - u = Real.log (1 + Real.exp (-u)) := by
+    have : (1 + Real.exp u) = Real.exp u * (1 + Real.exp (-u)) := by
+      rw [mul_add, mul_one, ← Real.exp_add]; simp [add_comm]
+    rw [this, Real.log_mul (Real.exp_pos u).ne' (by positivity), Real.log_exp]; ring
+  have h3 : 0 ≤ Real.log (1 + Real.exp (-u)) := Real.log_nonneg (by linarith [Real.exp_pos (-u)])
+  have h4 : Real.log (1 + Real.exp (-u)) ≤ Real.exp (-u) := by
+    have := Real.log_le_sub_one_of_pos (show 0 < 1 + Real.exp (-u) by positivity); linarith
+  have h5 : Real.exp (-u) ≤ Real.exp (-50) := Real.exp_le_exp.mpr (by linarith)
+  rw [e1, h2, abs_of_nonneg (mul_nonneg (by linarith) h3)]
+  exact mul_le_mul_of_nonneg_left (le_trans h4 h5) (by linarith)
+
+/-- … and there the code's kernel is not zero at zero (this is why the property restricts `a/|b| ≤ 50`) -/
+theorem tolerantC_zero_outside {a b : ℝ} (hb : b < 0) (hu : 50 < (0 - a) / b) : 0 < tolerantC a b 0 := by
+  set u := (0 - a) / b with hud
+  have e1 : tolerantC a b 0 = -b * (Real.log (1 + Real.exp u) - u) := by
+    unfold tolerantC; rw [softplus50_real, if_pos hu]
+    simp only [log_real, exp_real, k_real, Nat.cast_one]
+    rw [show (-a) / b = u by rw [hud]; ring]; ring
+  rw [e1]
+  have : u < Real.log (1 + Real.exp u) := by
+    calc u = Real.log (Real.exp u) := (Real.log_exp u).symm
+      _ < Real.log (1 + Real.exp u) := Real.log_lt_log (Real.exp_pos u) (by linarith)
+  exact mul_pos (by linarith) (by linarith)
+
+
+
+/-! ### pass 3: constructor checks and the parameter domain of the property -/
+theorem ctorOk_real (s : Spec ℝ) : s.ctorOk = true ↔
+    (match s.kind with
+     | .huber | .pseudoHuber | .cauchy | .softLOne => 0 < s.p1
+     | .arctan => True
+     | .tolerant => 0 < s.p1 ∧ s.p2 < 0
+     | .scale => 0 < s.p1 ∧ s.p1 ≤ 1
+     | .poly => True) := by
+  unfold Spec.ctorOk
+  cases s.kind <;> simp [lt_real, le_real, k_real]
+
+/-- the parameter domain of the property: what the constructor accepts, plus `δ ≠ 0` for Arctan (which has no constructor
+check) and `a/|b| ≤ 50` for Tolerant -/
+def Spec.inDomain (s : Spec ℝ) : Prop :=
+  s.kind ≠ Kind.poly ∧ s.ctorOk = true ∧ (s.kind = Kind.arctan → s.p1 ≠ 0) ∧ (s.kind = Kind.tolerant → s.p1 ≤ 50 * (-s.p2))
+
+
 end PP.Kernel
